@@ -189,8 +189,17 @@ def execute(ep, ctx):
         try:
             status = apply_op(net, model, op, ctx, fam_box, bad)
         except Exception as e:
+            # a refused operation must leave the groups as they were (no half-applied attach / reindex)
+            pre_x = {(kind, key) for kind, key, _ in pre_viol}
+            try:
+                left = [(kind, key, d) for kind, key, d in check_model(net, model_before) if (kind, key) not in pre_x]
+            except Exception:
+                left = []
+            for kind, key, d in left[:2]:
+                fam_box[0] = f"{fam_box[0]} raised {type(e).__name__}"
+                bad(f"{kind} after a refused operation", f"raised {type(e).__name__}: {e!s:.80}; left behind: {d}")
             net, model = net_before, model_before
-            ctx.event(k, "rejected", type(e).__name__)
+            ctx.event(k, "rejected", type(e).__name__, sigs)
             continue
         if status == "noop":
             ctx.event(k, "noop")
